@@ -199,15 +199,37 @@ func vsPrunerWorld(s *verifsim.Sim) {
 		s.Cfg["range_prefix"] = true
 	}
 
+	// transient failures of header look-ups by height (the next getMiss ones)
+	getMiss := 0
+	chain.GetHook = func(_ context.Context, h uint64) error {
+		if getMiss > 0 {
+			getMiss--
+			s.Fault("header-lookup-fails")
+			return errors.New("verif: header store hiccup")
+		}
+		return nil
+	}
+	inst := 0             // bumped whenever the running instance changes or dies; tasks of older instances are not judged
+	gracefulDown := false // the instance was stopped, the process (header store included) is still alive
+	stoppedAdvance := -1  // the instance number during whose stopped time a tail advance began and is under way
+	var startPoint uint64
+	chain.AfterDelete = func(h uint64) {
+		p.mu.Lock()
+		pruned := p.pruned[h]
+		p.mu.Unlock()
+		if stoppedAdvance == inst && !pruned && h > startPoint {
+			s.Violate("c14-header-deleted-unpruned-while-stopped", "on-delete", "the stopped pruner let the header store delete the header of height %d although the block's data was never pruned (nothing can prune it once the header is gone)", h)
+		}
+	}
 	ds := verifsim.NewSimDS()
 	var svc *Service
 	var handle *verifsim.DSHandle
 	var floor, lastSeen uint64
 	state := "down"
-	inst := 0 // bumped whenever the running instance changes or dies; tasks of older instances are not judged
 	noReset := false
 	start := func() {
 		inst++
+		gracefulDown = false
 		chain.ClearOnDelete()
 		if handle != nil {
 			handle.Kill() // the previous process is gone: nothing of it can write any more
@@ -262,7 +284,7 @@ func vsPrunerWorld(s *verifsim.Sim) {
 		}
 		state = "running"
 	}
-	startPoint := chain.TailHeight()
+	startPoint = chain.TailHeight()
 	start()
 
 	durableLast := func() (uint64, bool) {
@@ -301,6 +323,7 @@ func vsPrunerWorld(s *verifsim.Sim) {
 		if stopTask != nil && stopTask.Done() {
 			stopTask = nil
 			state = "down"
+			gracefulDown = true
 		}
 		if chain.HeadHeight() < 80 {
 			alts = append(alts, verifsim.Alt{Label: "grow head", Weight: 8, Do: func() { grow(s.Range(1, 6, "grow_by")) }})
@@ -381,6 +404,24 @@ func vsPrunerWorld(s *verifsim.Sim) {
 		}
 		if state == "down" {
 			alts = append(alts, verifsim.Alt{Label: "restart", Weight: 12, Do: func() { start() }})
+			th := chain.TailHeight()
+			if gracefulDown && !faultFree && (tailTask == nil || tailTask.Done()) && th+2 < chain.HeadHeight() && tailOutside(th) {
+				// the pruner is stopped, the header syncer of the same process is not yet: it moves its tail
+				alts = append(alts, verifsim.Alt{Label: "advance tail while the pruner is stopped", Weight: 4, Do: func() {
+					s.Fault("tail-advance-while-stopped")
+					my := inst
+					tailTask = s.Go("tail-advance", func() {
+						stoppedAdvance = my
+						defer func() { stoppedAdvance = -1 }()
+						if err := chain.AdvanceTail(context.Background(), th+1); err != nil {
+							s.Note("tail advance refused: %v", err)
+						}
+					})
+				}})
+			}
+		}
+		if state == "running" && !faultFree && getMiss == 0 {
+			alts = append(alts, verifsim.Alt{Label: "header look-ups fail", Weight: 1, Do: func() { getMiss = 1 + s.Choose(2, "failing_lookups") }})
 		}
 		s.Pick("step", alts)
 	}
@@ -430,6 +471,7 @@ func vsPrunerWorld(s *verifsim.Sim) {
 	// 2. fault-free continuation: everything older than window + block time gets pruned
 	p.mu.Lock()
 	p.auto = 1
+	getMiss = 0
 	p.mu.Unlock()
 	for _, c := range p.livePending() {
 		p.release(c, nil)
